@@ -140,6 +140,7 @@ type World struct {
 	UserScr []byte
 	UserAdr string
 	Aux     Cloner // monitor-owned history state, forked with the world
+	seqOff         uint64 // voted transactions assembled earlier in the same block (when chained)
 	widOff, reqOff uint64 // ids handed out to the requests of the block being assembled
 	prov           map[uint64]*sim.BtcBlock // blocks voted by earlier transactions of the block being assembled
 }
@@ -225,9 +226,11 @@ func (w *World) BtcTip() uint64 {
 	return t
 }
 
-// Vote signs a proposal with every current member.
+// Vote signs a proposal with every current member (for the current sequence plus the
+// offset of voted transactions already assembled for the same block).
 func (w *World) Vote(method string, payload []byte) *relayertypes.Votes {
 	rel, seq := w.Relayer()
+	seq += w.seqOff
 	vc := sim.VoteCtx{Method: method, ChainID: w.N.Cfg.ChainID, Proposer: rel.Proposer, Sequence: seq, Epoch: rel.Epoch, Payload: payload}
 	signers := []sim.Member{w.member(rel.Proposer)}
 	var marks []int
@@ -290,6 +293,12 @@ func (w *World) BuildMsg(e Event) (msg sdk.Msg, commit func()) {
 		}
 		m := &bitcointypes.MsgNewBlockHashes{Proposer: rel.Proposer, StartBlockNumber: start, BlockHash: hashes}
 		m.Vote = w.Vote(m.MethodName(), m.VoteSigDoc())
+		if e.Var == "chained" || e.Var == "" {
+			w.Bot.Votes = append(w.Bot.Votes, StoredVote{Msg: m, Desc: fmt.Sprintf("hashes@seq%d", m.Vote.Sequence)})
+		}
+		if e.Var == "chained" {
+			w.seqOff++
+		}
 		return m, func() {
 			for h, b := range blocks {
 				w.Bot.Blocks[h] = b
@@ -417,7 +426,64 @@ func (w *World) BuildMsg(e Event) (msg sdk.Msg, commit func()) {
 		}
 		m := &bitcointypes.MsgNewPubkey{Proposer: rel.Proposer, Pubkey: k.Public()}
 		m.Vote = w.Vote(m.MethodName(), m.VoteSigDoc())
+		if e.Var == "chained" {
+			w.seqOff++
+		}
 		return m, func() { w.Bot.NewKeys++ }
+	case "tx:consolidation":
+		tx := sim.BtcTx(uint32(88000+len(w.Bot.Votes)), sim.BtcOut{Value: 123456, Script: sim.RefSystemScript(w.N.Cfg.BtcKey)})
+		m := &bitcointypes.MsgNewConsolidation{Proposer: rel.Proposer, NoWitnessTx: tx}
+		m.Vote = w.Vote(m.MethodName(), m.VoteSigDoc())
+		w.Bot.Votes = append(w.Bot.Votes, StoredVote{Msg: m, Desc: fmt.Sprintf("consolidation@seq%d", m.Vote.Sequence)})
+		return m, func() {}
+	case "tx:replay-consolidation":
+		for i := len(w.Bot.Votes) - 1; i >= 0; i-- {
+			if old, ok := w.Bot.Votes[i].Msg.(*bitcointypes.MsgNewConsolidation); ok {
+				m := &bitcointypes.MsgNewConsolidation{Proposer: old.Proposer, NoWitnessTx: old.NoWitnessTx,
+					Vote: &relayertypes.Votes{Sequence: old.Vote.Sequence, Epoch: old.Vote.Epoch, Voters: old.Vote.Voters, Signature: old.Vote.Signature}}
+				if e.Var == "rewrite-context" {
+					_, seq := w.Relayer()
+					m.Vote.Sequence, m.Vote.Epoch, m.Proposer = seq, rel.Epoch, rel.Proposer
+				}
+				return m, func() {}
+			}
+		}
+		return nil, nil
+	case "tx:replay":
+		// re-present a vote produced earlier in this history
+		var pool []StoredVote
+		for _, v := range w.Bot.Votes {
+			if _, ok := v.Msg.(*bitcointypes.MsgNewBlockHashes); ok {
+				pool = append(pool, v)
+			}
+		}
+		if len(pool) == 0 {
+			return nil, nil
+		}
+		pick := pool[len(pool)-1]
+		if e.N == 1 {
+			pick = pool[0]
+		}
+		old := pick.Msg.(*bitcointypes.MsgNewBlockHashes)
+		m := &bitcointypes.MsgNewBlockHashes{Proposer: old.Proposer, StartBlockNumber: old.StartBlockNumber, BlockHash: old.BlockHash,
+			Vote: &relayertypes.Votes{Sequence: old.Vote.Sequence, Epoch: old.Vote.Epoch, Voters: old.Vote.Voters, Signature: old.Vote.Signature}}
+		_, seq := w.Relayer()
+		switch e.Var {
+		case "unchanged":
+		case "rewrite-context":
+			m.Vote.Sequence, m.Vote.Epoch, m.Proposer = seq, rel.Epoch, rel.Proposer
+		case "rewrite-context+start":
+			m.Vote.Sequence, m.Vote.Epoch, m.Proposer = seq, rel.Epoch, rel.Proposer
+			m.StartBlockNumber = w.BtcTip() + 1
+		case "other-payload":
+			m.Vote.Sequence, m.Vote.Epoch, m.Proposer = seq, rel.Epoch, rel.Proposer
+			m.StartBlockNumber = w.BtcTip() + 1
+			m.BlockHash = [][]byte{sim.DSHA([]byte("another block"))}
+		case "other-action":
+			k := sim.NewBtcKey("replayed-vote-key", false)
+			return &bitcointypes.MsgNewPubkey{Proposer: rel.Proposer, Pubkey: k.Public(), Vote: &relayertypes.Votes{Sequence: seq, Epoch: rel.Epoch, Voters: old.Vote.Voters, Signature: old.Vote.Signature}}, func() {}
+		}
+		return m, func() {}
 	case "tx:accept":
 		return &relayertypes.MsgAcceptProposerRequest{Proposer: rel.Proposer, Epoch: rel.Epoch}, func() {}
 	}
@@ -536,7 +602,7 @@ func (w *World) Run(b ABlock) *Result {
 		}
 	}
 	w.N.EL.ClearRequests()
-	w.widOff, w.reqOff = 0, 0
+	w.widOff, w.reqOff, w.seqOff = 0, 0, 0
 	w.prov = map[uint64]*sim.BtcBlock{}
 	var commits []func()
 	var reqCommits []func()
